@@ -5,6 +5,8 @@ import SlipVerif.Driver.Util
      ll bind <lambda-list> <args>      -> ok <name-hex>=<term>*  | err badLL | err <BindErr>
      ll arity <lambda-list>            -> ok <min> <max|inf>     | err badLL
      ll doc <name-hex>,<name-hex>,…|-  -> ok <min> <max|inf> <nodupmax|inf> | err badLL
+     ll hist <op>*   op = d:<name-hex>:<lambda-list> | c:<name-hex>:<args>
+                     -> ok <result>;<result>;…  one per call: undef | err badLL | err <BindErr> | ok/<name-hex>=<term>/…
    term: n | i:<dec> | y:<hex> (symbol) | k:<hex> (keyword) | s:<hex> (string) | (<term>,<term>,…) -/
 namespace SlipVerif.Driver.Lambda
 open SlipVerif.Lambda SlipVerif.Driver
@@ -66,8 +68,36 @@ def showMax : Option Nat → String
   | none => "inf"
   | some m => toString m
 
+def parseOp (s : String) : Option (Except Unit Op) :=
+  match s.splitOn ":" with
+  | kind :: name :: rest =>
+    match unhexString? name, parseObj (":".intercalate rest) with
+    | some n, some o =>
+      if kind = "d" then
+        match parseLL o with
+        | .ok ll => some (.ok (.define n ll))
+        | .error _ => some (.error ())
+      else if kind = "c" then (o.toList?).map (fun as => .ok (.call n as))
+      else none
+    | _, _ => none
+  | _ => none
+
+def showResult : CallResult → String
+  | .undefined => "undef"
+  | .bound (.error e) => "err " ++ showErr e
+  | .bound (.ok bs) => "ok" ++ String.join (bs.map (fun (n, v) => "/" ++ hexString n ++ "=" ++ showObj v))
+
+def handleHist (args : List String) : String :=
+  match args.mapM parseOp with
+  | none => "bad-request op"
+  | some ops =>
+    match ops.mapM (fun o => match o with | .ok op => some op | .error _ => none) with
+    | none => "err badLL"
+    | some ops => "ok " ++ ";".intercalate ((runHist [] ops).map showResult)
+
 def handle (entry : String) (args : List String) : String :=
   match entry, args with
+  | "hist", ops => handleHist ops
   | "bind", [l, a] =>
     match parseObj l, parseObj a with
     | some lo, some ao =>
